@@ -149,6 +149,13 @@ def run(chk, ctx):
     for fi in list(prog.functions.values()):
         nfun += 1
         probs = syntactic_writes(prog, fi)
+        if probs and import_time_only(prog, fi):
+            # applied only as a decorator of module / class level
+            # definitions: it runs while the module is imported, i.e. it is
+            # part of building the table, not a codec call
+            chk.note('%s writes module state but is only applied as an '
+                     'import-time decorator' % fi.short)
+            continue
         for site, what in probs:
             chk.ob('C16.G', '%s %s' % (fi.short, what), False,
                    'write to shared state: %s' % what, site=site)
@@ -379,6 +386,48 @@ def check_fresh(chk, f, r, cons):
            '%d objects reachable from the result, all created in this call'
            % n[0] if not bad else '; '.join(bad[:3]),
            site='pamqp/frame.py::unmarshal')
+
+
+def import_time_only(prog, fi):
+    """Every reference to the (module-level) function is a decorator of a
+    definition at module or class level."""
+    if fi.owner is not None or isinstance(fi.node, ast.Lambda):
+        return False
+    name = fi.node.name
+    deco_ids = set()
+    inside_funcs = set()
+    for mi in prog.modules.values():
+        for n in ast.walk(mi.tree):
+            if isinstance(n, (ast.FunctionDef, ast.AsyncFunctionDef,
+                              ast.Lambda)):
+                for c in ast.walk(n):
+                    if c is not n:
+                        inside_funcs.add(id(c))
+        for n in ast.walk(mi.tree):
+            if isinstance(n, (ast.ClassDef, ast.FunctionDef)) and \
+                    id(n) not in inside_funcs:
+                for d in n.decorator_list:
+                    if not isinstance(d, ast.Call):
+                        for c in ast.walk(d):
+                            deco_ids.add(id(c))
+    refs = 0
+    for mi in prog.modules.values():
+        for n in ast.walk(mi.tree):
+            hit = False
+            if isinstance(n, ast.Name) and n.id == name and \
+                    isinstance(n.ctx, ast.Load) and mi is fi.module:
+                hit = True
+            elif isinstance(n, ast.Attribute) and n.attr == name and \
+                    isinstance(n.ctx, ast.Load):
+                try:
+                    hit = prog.resolve_static(mi, n, mi) is fi
+                except Exception:
+                    hit = False
+            if hit:
+                refs += 1
+                if id(n) not in deco_ids:
+                    return False
+    return refs > 0
 
 
 def syntactic_writes(prog, fi):
